@@ -352,9 +352,8 @@ pub fn norm_expected(v: f64, min: f64, max: f64) -> Option<f64> {
         return Some(0.0);
     }
     let c = if v < min { min } else if v > max { max } else { v };
-    // halve everything first so that max-min cannot overflow
-    let num = c * 0.5 - min * 0.5;
-    let den = max * 0.5 - min * 0.5;
+    // halve the operands only when max-min would overflow (halving loses the last bit of subnormals)
+    let (num, den) = if (max - min).is_finite() { (c - min, max - min) } else { (c * 0.5 - min * 0.5, max * 0.5 - min * 0.5) };
     if den == 0.0 {
         return Some(0.0);
     }
